@@ -316,6 +316,7 @@ func runC12(c *Ctx) {
 		}
 	}
 	ruleParamEnable(c)
+	ruleProtocolErrorSites(c) // "refused with 504": one reply, however many parameters were refused before, and the connection goes on
 	// AUTH / STARTTLS handlers use the same predicates as the advertisement
 	ruleSizeParam(c) // the advertised SIZE limit is the one MAIL enforces
 	ruleNoSharedMutableGlobals(c)
